@@ -83,6 +83,8 @@ pub struct SchedLog {
     pub deadlock: bool,
     pub step_limit_hit: bool,
     pub time_advances: u64,
+    /// the asynchronous SIGUSR1 requested by the set-up was actually raised
+    pub raised: bool,
 }
 
 struct ChooserState {
@@ -152,6 +154,9 @@ pub struct Setup {
     pub remove_files: Vec<String>,
     /// stdin is a pipe fed by a helper task writing these chunks (scheduler-interleaved)
     pub stdin_pipe: Option<Vec<Vec<u8>>>,
+    /// raise SIGUSR1 on the shell process right before this scheduler step (only if the process
+    /// currently catches it, so that the default action cannot kill the shell)
+    pub raise_usr1_at_step: Option<u32>,
 }
 
 impl Setup {
@@ -170,6 +175,7 @@ impl Setup {
             preempt: false,
             remove_files: vec![],
             stdin_pipe: None,
+            raise_usr1_at_step: None,
         }
     }
     pub fn args(mut self, args: &[&str]) -> Setup {
@@ -463,6 +469,18 @@ pub fn run(setup: &Setup) -> RunResult {
                 main_done_at = Some(log.steps);
                 if !setup.drain {
                     break;
+                }
+            }
+            if let Some(at) = setup.raise_usr1_at_step {
+                if !log.raised && log.steps >= at as u64 && !done.get() {
+                    use yash_env::system::r#virtual::SIGUSR1;
+                    let mut st = state.borrow_mut();
+                    if let Some(p) = st.processes.get_mut(&yash_env::job::Pid(main_pid)) {
+                        if p.disposition(SIGUSR1) == yash_env::system::Disposition::Catch && p.state().is_alive() {
+                            let _ = p.raise_signal(SIGUSR1);
+                            log.raised = true;
+                        }
+                    }
                 }
             }
             let runnable: Vec<usize> = tasks
